@@ -336,6 +336,7 @@ def run(c, chk):
     # ---- R1.4 ---------------------------------------------------------------------------
     type_dispatch(c, chk)
     construct_before_use(c, chk, 'R1.6')
+    depends_on(c, chk)
     deprecated_handling(c, chk, model)
 
 
@@ -750,3 +751,15 @@ def defaults_dropped_under_reset(c, chk, rid):
         else:
             chk.ok(rid, fname, 'cfg_free_value(opt) runs with CFGF_RESET still set; the bit is cleared afterwards', sample=True)
     chk.floor('%s default-dropping paths' % rid, n, 2)
+
+
+def depends_on(c, chk):
+    """R1.8 / R1.9: the meaning of a text is built from how its tokens are decoded and how value tokens are converted:
+    the decoding table (C03) and the conversion discipline (C04) are obligations of this property too"""
+    from . import c03, c04
+    chk.rule('R1.8', 'string, escape, substitution and comment decoding equals the reference table (the rules of C03)')
+    chk.rule('R1.9', 'value tokens are converted exactly or refused (the rules of C04)')
+    for rid, mod, pid, label in (('R1.8', c03, 'C03', 'token decoding'), ('R1.9', c04, 'C04', 'value conversion')):
+        sub = report.SubCheck(chk, rid, pid)
+        mod.run(c, sub)
+        sub.done(label)
